@@ -111,112 +111,6 @@ def tameRun : Nat → List Entry → List PTok → Option (List PTok)
             else none
     | _ => keep
 
-/-! ## experimental: the class extended by invocations that are completed after the end of an expansion
-
-`tameRun2` additionally accepts a function-like name at the end of an expansion that is followed by `(` in the rest of
-the source when (1) the frame is *pure* (no token of the list came out of an expanded argument: all hide sets are the
-disabled names), (2) the name is *open* (it was looked at with nothing after it) and (3) none of the macros that
-produced it is the name itself.  Second component of the result: `some hs` if the last token of the output is open,
-`hs` = the macros (beyond the disabled ones) it came out of.  Used by the driver op `C12.tame2` to measure the class
-against the real code before anything is proved about it. -/
-
-def allBlank (l : List PTok) : Bool := l.all (fun t => t.tok.isBlank)
-
-/-- split at the last token that is not white space: (before, that token, white space after) -/
-def splitLast : List PTok → Option (List PTok × PTok × List PTok)
-  | [] => none
-  | t :: r =>
-    match splitLast r with
-    | some (a, g, b) => some (t :: a, g, b)
-    | none => if t.tok.isWhitespace then none else some ([], t, r)
-
-def startsParenM (l : List PTok) : Bool :=
-  match trimStart l with
-  | ⟨.lparen, _⟩ :: _ => true
-  | _ => false
-
-def noNames (env : List Entry) (l : List PTok) : Bool :=
-  l.all (fun t => match t.tok with
-    | .id n => env.all (fun e => e.m.name != n || e.disabled)
-    | _ => true)
-
-def ppEmpty (l : List PTok) : Bool := l.all (fun t => t.tok.isWhitespace)
-
-mutual
-def tameRun2 : Nat → List Entry → Bool → List PTok → Option (List PTok × Option (List String))
-  | 0, _, _, _ => none
-  | _ + 1, _, _, [] => some ([], none)
-  | f + 1, env, pure, t :: rest =>
-    let keep : Option (List PTok × Option (List String)) :=
-      if keptB env t rest then
-        match tameRun2 f env pure rest with
-        | some (out, ti) =>
-          some (t :: out, if ppEmpty rest then (if t.tok.isWhitespace then none else some []) else ti)
-        | none => none
-      else none
-    match t.tok with
-    | .id n =>
-      match selectIdx env n with
-      | none => keep
-      | some (mi, e) =>
-        match readArgs e.m rest with
-        | .error _ => keep
-        | .ok (rest', args) =>
-          match mapO (fun a => (tameRun2 f env pure a).map (·.1)) args with
-          | none => none
-          | some args' =>
-            if args'.all (onlyDisabledB env) then
-              match substitute e.m.body args' with
-              | .error _ => none
-              | .ok body' =>
-                let pure' := pure && (!e.m.isFunction || args.all (noNames env))
-                match tameRun2 f (disable env mi) pure' body' with
-                | none => none
-                | some (R, tiR) => tameAfter f env pure mi (if e.m.isFunction then some mi else none) R
-                    (tiR.map (n :: ·)) rest'
-            else none
-    | _ => keep
-
-def tameAfter : Nat → List Entry → Bool → Nat → Option Nat → List PTok → Option (List String) → List PTok →
-    Option (List PTok × Option (List String))
-  | 0, _, _, _, _, _, _, _ => none
-  | f + 1, env, pure, mi, lastFn, R, tiR, rest =>
-    if noFireB env mi R rest then
-      match tameRun2 f env pure rest with
-      | some (out, ti) => some (R ++ out, if ppEmpty rest then tiR else ti)
-      | none => none
-    else
-      -- the model's early scan: the last token of `R` that is not blank, followed by blanks and `(`
-      match splitLast R with
-      | some (R0, ⟨.id g, _⟩, blanks) =>
-        match selectIdx env g with
-        | some (mj, e) =>
-          if e.m.isFunction && allBlank blanks && startsParenM rest && lastFn != some mj && pure &&
-              (match tiR with | some hs => !hs.contains g | none => false) then
-            match readArgs e.m rest with
-            | .error _ => none
-            | .ok (rest', args) =>
-              match mapO (fun a => (tameRun2 f env pure a).map (·.1)) args with
-              | none => none
-              | some args' =>
-                if args'.all (onlyDisabledB env) then
-                  match substitute e.m.body args' with
-                  | .error _ => none
-                  | .ok body' =>
-                    let pure' := pure && args.all (noNames env)
-                    match tameRun2 f (disable env mj) pure' body' with
-                    | none => none
-                    | some (R', tiR') =>
-                      match tameAfter f env pure mj (some mj) R' (tiR'.map (g :: ·)) rest' with
-                      | some (out, ti) => some (R0 ++ out, ti)
-                      | none => none
-                else none
-          else none
-        | none => none
-      | _ => none
-end
-
-
 /-- what `Macro::parse` guarantees about a replacement list (`WFMacro`, decided), plus "no `##`" -/
 def wfB (m : Macro) : Bool :=
   m.body.all (fun t =>
